@@ -468,7 +468,7 @@ pub fn run(cfg: &Cfg) -> i32 {
         let caller = Grammar { atoms: if cfg.quick() { vec![N::Int(7), N::Flag(true)] } else { vec![N::Int(7), N::Flag(true), p("drop")] }, locals: vec!["a"], ..callee.clone() };
         let callee_g0 = G { in_def: true, loops: vec![], flows: 1, locals: vec![], defs: vec![], vars: vec![], depth: 1 };
         let caller_g0 = G { in_def: true, loops: vec![], flows: 1, locals: vec![], defs: vec!["g"], vars: vec![], depth: 1 };
-        let (ncallee, ncaller) = if cfg.quick() { (5, 4) } else { (6, 4) };
+        let (ncallee, ncaller) = (5, 4); // the thorough tier differs in its alphabets (two locals, four atoms)
         let mut callees: Vec<Vec<N>> = vec![];
         for s in 0..=ncallee {
             let mut acc = vec![];
